@@ -36,8 +36,8 @@ META = dict(
     ref="DESIGN.md section 4 C01")
 
 PIPE = ("forward", "inverse", "step", "step1", "step2")
-CLASSES = ("time", "qp", "hist", "plug", "warm", "ctrl", "app", "aux", "pv", "acc", "qacc", "inv", "sens", "efc")
-NEED = ["MakeData", "ResetData", "CopyData", "CopyState", "GetState", "SetState", "SetInput", "SetAll", "Forward", "Inverse",
+CLASSES = ("time", "qp", "hist", "plug", "warm", "ctrl", "app", "aux", "pv", "acc", "qacc", "sm", "inv", "sens", "efc")
+NEED = ["MakeData", "ResetData", "CopyData", "CopyState", "GetState", "SetState", "SetInput", "SetAll", "SetQacc", "Forward", "Inverse",
         "Step", "Step1", "Step2"]
 SLEEP_STEPS = 6          # one Step action = this many mj_step calls in the sleeping configuration
 
@@ -72,6 +72,8 @@ def op_line(ev, steps=1):
         return "gload %d 0" % a
     if op == "setinput":
         return "pat %d %s %d" % (a, ev["g"], ev["k"])
+    if op == "setqacc":
+        return "pat %d qaccin %d" % (a, ev["k"])
     if op == "step":
         return "step %d %d" % (a, steps)
     if op in PIPE:
